@@ -210,18 +210,30 @@ func GenLong(r *hx.Rand, opts GenOpts, depth int) *Scenario {
 		}
 		scn.Txs = append(scn.Txs, t)
 	}
+	// "late" txs: old refs (more than 100 below the tip) that only the last few trunk blocks include and the side
+	// branches never do: heads on branches forking near the tip see them on a sibling only, through the indexed path
+	lateFrom := len(scn.Txs)
+	if depth > 115 {
+		for i := 0; i < 5; i++ {
+			scn.Txs = append(scn.Txs, TxSpec{Key: r.Intn(7), Nonce: r.Uint64(), Ref: uint32(depth - 110 + r.Intn(8)), Exp: 125, Dep: -1})
+		}
+	}
+	onTrunk := true
 	t := newTree()
 	acceptP := []int{50, 95, 100}[r.Intn(3)]
 	// candidates by height: txs whose window contains the height (plus a few arbitrary ones)
 	candAt := func(h uint32) []int {
 		var c []int
 		for i, s := range scn.Txs {
+			if i >= lateFrom && !(onTrunk && int(h) >= depth-5) {
+				continue
+			}
 			if h >= s.Ref && uint64(h) <= uint64(s.Ref)+uint64(s.Exp) {
 				c = append(c, i)
 			}
 		}
 		for k := 0; k < 2; k++ {
-			c = append(c, r.Intn(len(scn.Txs)))
+			c = append(c, r.Intn(lateFrom))
 		}
 		return c
 	}
@@ -234,13 +246,16 @@ func GenLong(r *hx.Rand, opts GenOpts, depth int) *Scenario {
 		if r.Chance(1, 12) {
 			p := trunk[len(trunk)-1-r.Intn(min(len(trunk), 3))]
 			p = t.parent[p]
+			onTrunk = false
 			for k := r.Range(1, 3); k > 0; k-- {
 				p = t.addBlock(r, scn, p, candAt(t.height[p]+1), 2, acceptP, opts, 30)
 			}
+			onTrunk = true
 		}
 	}
 	// late branches from chosen fork points
 	forks := []int{r.Intn(min(depth, 5)), max(0, depth-100-r.Intn(4)), max(0, depth-98+r.Intn(3)), max(0, depth-1-r.Intn(6))}
+	onTrunk = false
 	for _, f := range forks {
 		if f >= len(trunk) {
 			continue
@@ -325,4 +340,49 @@ func Shrink(s *Scenario, budget int, bad func(*Scenario) bool) *Scenario {
 		}
 	}
 	return cur
+}
+
+// GenDeep: two long competing branches reaching heights above 255, where the uvarint-encoded block numbers in the
+// tx-index keys no longer sort numerically (256 = 80 02 sorts before 200 = c8 01).  Long-lived txs (ref just
+// below the fork, expiration 150-250) are included late on the side branch (heights ~190-250) and on the trunk
+// (heights >= 256), so that for a head on the side branch the index holds an entry above the head that precedes,
+// in key order, the entry of the head's own chain — with head-ref far beyond the recent-window shortcut.
+func GenDeep(r *hx.Rand, opts GenOpts) *Scenario {
+	scn := &Scenario{Shape: "deep", QSeed: r.Uint64()}
+	fork := r.Range(118, 132)
+	nLong := r.Range(6, 12)
+	for i := 0; i < nLong; i++ {
+		scn.Txs = append(scn.Txs, TxSpec{Key: r.Intn(7), Nonce: r.Uint64(), Ref: uint32(fork - r.Intn(20)), Exp: uint32(r.Range(150, 250)), Dep: -1})
+	}
+	for i := 0; i < 20; i++ { // ordinary short-lived txs spread over the heights
+		scn.Txs = append(scn.Txs, TxSpec{Key: r.Intn(7), Nonce: r.Uint64(), Ref: uint32(r.Intn(260)), Exp: uint32(r.Intn(30)), Dep: -1})
+	}
+	t := newTree()
+	candAt := func(h uint32, wantLong bool) []int {
+		var c []int
+		for i, s := range scn.Txs {
+			if h >= s.Ref && uint64(h) <= uint64(s.Ref)+uint64(s.Exp) && (i >= nLong || wantLong) {
+				c = append(c, i)
+			}
+		}
+		if len(c) == 0 {
+			c = append(c, nLong+r.Intn(20))
+		}
+		return c
+	}
+	tip := 0
+	forkBlock := 0
+	trunkTop := r.Range(258, 275)
+	for i := 1; i <= trunkTop; i++ {
+		tip = t.addBlock(r, scn, tip, candAt(uint32(i), i >= 256), 2, 100, opts, 90)
+		if i == fork {
+			forkBlock = tip
+		}
+	}
+	side := forkBlock
+	sideTop := r.Range(236, 252)
+	for i := fork + 1; i <= sideTop; i++ {
+		side = t.addBlock(r, scn, side, candAt(uint32(i), i >= 190), 2, 100, opts, 5)
+	}
+	return scn
 }
